@@ -340,6 +340,7 @@ impl WriteAheadLog {
     }
 
     pub closed spec fn last_lsn_spec(&self) -> Option<u64> { self.header.meta().wal_header.global_last_lsn }
+    pub closed spec fn block_size_spec(&self) -> int { self.block_size as int }
 
     // number of blocks block zero ON DISK accounts for (1 for a file nothing was written to yet)
     pub closed spec fn td(&self) -> int { dtd(self.disk()) }
@@ -383,6 +384,7 @@ impl WriteAheadLog {
 //@   [C17:flush.view_kept] r is Ok ==> final(self).view() =~= old(self).view(),
 //@   [C17:flush.keeps_inv] r is Ok ==> final(self).inv(),
 //@   [C17:flush.last_lsn_kept] final(self).last_lsn_spec() == old(self).last_lsn_spec(),
+//@   [C17:flush.frame] r is Ok ==> (final(self).total_blocks() == old(self).total_blocks() && final(self).entries() == old(self).entries() && final(self).block_size_spec() == old(self).block_size_spec()),
 //@ loop 1
 //@   invariant
 //@     old(self).inv(),
@@ -477,6 +479,253 @@ impl WriteAheadLog {
 //@   [C17:push.keeps_inv] final(self).inv(),
 //@   [C17:push.last_lsn] r is Ok ==> final(self).last_lsn_spec() == Some(record@.lsn),
 //@   [C17,C01:push.leaves_disk_alone] final(self).disk() == old(self).disk(),
+//@   [C17:push.stats] final(self).last_lsn_spec() == Some(record@.lsn) || (r is Err && final(self).last_lsn_spec() == old(self).last_lsn_spec()),
+//@   [C17:push.growth] final(self).total_blocks() <= old(self).total_blocks() + 2 && final(self).entries() <= old(self).entries() + 1 && final(self).block_size_spec() == old(self).block_size_spec(),
+//@end
+}
+
+
+// ---------------------------------------------------------------------------------------
+// The commit chain (C01/C02): Session -> TransactionLogger -> Pager -> WriteAheadLog.
+// Environment (bound by name): Pager is reduced to the one field these functions touch;
+// SharedPager / the shared LSN cell are Arc<RwLock<_>> in the repository and are modelled
+// with the lock's SEQUENTIAL semantics (write() = exclusive access), rule R8.
+// ---------------------------------------------------------------------------------------
+//@trusted [env] Arc<RwLock<Pager>> / Arc<RwLock<u64>>: write()/read() give access to the protected value (sequential semantics; schedules are property C14, not claimed)
+//@trusted [env] Operation::into_record(lsn, tid, prev) builds a record with exactly these three fields and the operation's own kind (io/logger.rs; the kinds of Begin/Commit/Abort/End are checked on the real code by Kani unit logkinds)
+//@trusted [env] TransactionContext::{commit_transaction, abort_transaction, is_open} do not touch the log (coordinator + page-zero header only)
+//@item crates/axmos-db/src/storage/wal.rs | - | enum RecordType
+
+pub open spec fn kind_code(k: RecordType) -> u8 {
+    match k {
+        RecordType::Begin => 0u8, RecordType::Commit => 1u8, RecordType::Abort => 2u8, RecordType::End => 3u8,
+        RecordType::Update => 6u8, RecordType::Delete => 7u8, RecordType::Insert => 8u8,
+        RecordType::Create => 9u8, RecordType::Drop => 10u8, RecordType::Alter => 11u8,
+    }
+}
+
+pub trait Operation: Sized {
+    spec fn kind(&self) -> RecordType;
+
+    fn into_record(&self, lsn: Lsn, tid: TransactionId, prev_lsn: Option<Lsn>) -> (r: OwnedRecord)
+        ensures r@.lsn == lsn, r@.tid == tid, r@.prev == prev_lsn, r@.kind == kind_code(self.kind()),
+                r@.size <= wb_usable(MIN_BLOCK_SIZE() as nat) || !is_control(self.kind());
+}
+
+pub open spec fn is_control(k: RecordType) -> bool {
+    k is Begin || k is Commit || k is Abort || k is End
+}
+pub open spec fn MIN_BLOCK_SIZE() -> int { 4096 }
+
+pub struct Begin;
+pub struct Commit;
+pub struct Abort;
+pub struct End;
+impl Operation for Begin {
+    spec fn kind(&self) -> RecordType { RecordType::Begin }
+    #[verifier::external_body]
+    fn into_record(&self, lsn: Lsn, tid: TransactionId, prev_lsn: Option<Lsn>) -> (r: OwnedRecord) { unimplemented!() }
+}
+impl Operation for Commit {
+    spec fn kind(&self) -> RecordType { RecordType::Commit }
+    #[verifier::external_body]
+    fn into_record(&self, lsn: Lsn, tid: TransactionId, prev_lsn: Option<Lsn>) -> (r: OwnedRecord) { unimplemented!() }
+}
+impl Operation for Abort {
+    spec fn kind(&self) -> RecordType { RecordType::Abort }
+    #[verifier::external_body]
+    fn into_record(&self, lsn: Lsn, tid: TransactionId, prev_lsn: Option<Lsn>) -> (r: OwnedRecord) { unimplemented!() }
+}
+impl Operation for End {
+    spec fn kind(&self) -> RecordType { RecordType::End }
+    #[verifier::external_body]
+    fn into_record(&self, lsn: Lsn, tid: TransactionId, prev_lsn: Option<Lsn>) -> (r: OwnedRecord) { unimplemented!() }
+}
+
+pub struct Pager { wal: WriteAheadLog }
+
+impl WriteAheadLog {
+    // std::io::Write::flush for the log is perform_flush (io/wal.rs `impl Write for WriteAheadLog`)
+//@fn crates/axmos-db/src/io/wal.rs | impl Write for WriteAheadLog | flush
+//@ requires old(self).inv(),
+//@ ensures
+//@   [C01,C17:walflush.is_force] r is Ok ==> (disk_log(final(self).disk()) =~= old(self).view() && final(self).view() =~= old(self).view() && final(self).inv()),
+//@   [C01:walflush.keeps_lsn] final(self).last_lsn_spec() == old(self).last_lsn_spec(),
+//@   [C01:walflush.frame] r is Ok ==> (final(self).total_blocks() == old(self).total_blocks() && final(self).entries() == old(self).entries() && final(self).block_size_spec() == old(self).block_size_spec()),
+//@end
+}
+
+pub open spec fn lsn_lt_all(s: Seq<Rec>, lsn: u64) -> bool {
+    forall|i: int| 0 <= i < s.len() ==> (#[trigger] s[i]).lsn < lsn
+}
+
+impl Pager {
+    pub closed spec fn log(&self) -> Seq<Rec> { self.wal.view() }
+    pub closed spec fn durable(&self) -> Seq<Rec> { disk_log(self.wal.disk()) }
+    // log invariant seen from the pager: the WAL invariant, and the header's last LSN dominates
+    // every LSN in the log (what makes `last + 1` fresh)
+    pub closed spec fn inv(&self) -> bool {
+        &&& self.wal.inv()
+        &&& (match self.wal.last_lsn_spec() {
+                Some(l) => (forall|i: int| 0 <= i < self.log().len() ==> (#[trigger] self.log()[i]).lsn <= l),
+                None => self.log().len() == 0,
+            })
+        &&& self.wal.block_size_spec() >= MIN_BLOCK_SIZE()
+    }
+    // consumable resources (stated assumption: the log stays below 2^32 blocks / entries between truncations)
+    pub closed spec fn used_blocks(&self) -> int { self.wal.total_blocks() }
+    pub closed spec fn used_entries(&self) -> int { self.wal.entries() }
+    pub closed spec fn used_lsn(&self) -> int { match self.wal.last_lsn_spec() { Some(l) => l as int, None => -1 } }
+    pub open spec fn room(&self, n: int) -> bool {
+        &&& self.used_blocks() + 2 * n < MAX_BLOCKS()
+        &&& self.used_entries() + n <= 0xFFFF_FFFF
+        &&& self.used_lsn() + n <= 0xFFFF_FFFF_FFFF_FFFF
+    }
+    pub open spec fn grows_by_at_most_one(&self, o: Pager) -> bool {
+        self.used_blocks() <= o.used_blocks() + 2 && self.used_entries() <= o.used_entries() + 1 && self.used_lsn() <= o.used_lsn() + 1
+    }
+
+//@fn crates/axmos-db/src/io/pager.rs | impl Pager | push_to_log
+//@ sub /\.map\(\|l\| l \+ 1\)/ => .map(|l: Lsn| -> (r: Lsn) requires l < 0xFFFF_FFFF_FFFF_FFFF ensures r == l + 1 { l + 1 })
+//@ requires old(self).inv(), old(self).room(1), is_control(operation.kind()),
+//@ ensures
+//@   [C01:pushlog.keeps_inv] final(self).inv() && final(self).grows_by_at_most_one(*old(self)),
+//@   [C17,C01:pushlog.lsn_strictly_increasing] r matches Ok(l) ==> lsn_lt_all(old(self).log(), l),
+//@   [C17,C01:pushlog.appends_record] r matches Ok(l) ==> (final(self).log().len() == old(self).log().len() + 1 && final(self).log().last().lsn == l && final(self).log().last().tid == tid && final(self).log().last().prev == prev_lsn && final(self).log().last().kind == kind_code(operation.kind()) && final(self).log().drop_last() =~= old(self).log()),
+//@   [C01:pushlog.err_keeps_log] r is Err ==> final(self).log() =~= old(self).log(),
+//@   [C01:pushlog.keeps_durable] final(self).durable() == old(self).durable(),
+//@end
+
+//@fn crates/axmos-db/src/io/pager.rs | impl Pager | flush_wal
+//@ requires old(self).inv(),
+//@ ensures
+//@   [C01:flush_wal.keeps_room] r is Ok ==> (final(self).used_blocks() == old(self).used_blocks() && final(self).used_entries() == old(self).used_entries() && final(self).used_lsn() == old(self).used_lsn()),
+//@   [C01:flush_wal.forces] r is Ok ==> (final(self).durable() =~= old(self).log() && final(self).log() =~= old(self).log() && final(self).inv()),
+//@end
+}
+
+
+pub struct SharedPager { inner: Pager }
+impl SharedPager {
+    #[verifier::external_body]
+    pub fn write(&mut self) -> (r: &mut Pager)
+        ensures *r == old(self).inner, final(self).inner == *final(r),
+    { unimplemented!() }
+}
+pub struct SharedLsn { v: u64 }
+impl SharedLsn {
+    #[verifier::external_body]
+    pub fn read(&self) -> (r: &u64)
+        ensures *r == self.v,
+    { unimplemented!() }
+    #[verifier::external_body]
+    pub fn write(&mut self) -> (r: &mut u64)
+        ensures *r == old(self).v, final(self).v == *final(r),
+    { unimplemented!() }
+}
+pub type RuntimeResult<T> = Result<T, IoError>;
+pub type QueryRunnerResult<T> = Result<T, IoError>;
+
+pub struct TransactionLogger { tid: TransactionId, pager: SharedPager, last_lsn: SharedLsn }
+
+pub open spec fn is_rec(r: Rec, k: RecordType, tid: u64) -> bool { r.kind == kind_code(k) && r.tid == tid }
+
+impl TransactionLogger {
+    pub closed spec fn log(&self) -> Seq<Rec> { self.pager.inner.log() }
+    pub closed spec fn durable(&self) -> Seq<Rec> { self.pager.inner.durable() }
+    pub closed spec fn inv(&self) -> bool { self.pager.inner.inv() }
+    pub open spec fn room(&self, n: int) -> bool { self.pg().room(n) }
+    pub closed spec fn pg(&self) -> Pager { self.pager.inner }
+    pub closed spec fn spec_tid(&self) -> u64 { self.tid }
+    pub closed spec fn spec_last(&self) -> u64 { self.last_lsn.v }
+
+//@fn crates/axmos-db/src/runtime/context.rs | impl TransactionLogger | log_operation
+//@ mutself
+//@ requires old(self).inv(), old(self).room(1), is_control(operation.kind()),
+//@ ensures
+//@   [C01,C02:logop.appends_own_record] r is Ok ==> (final(self).log().len() == old(self).log().len() + 1 && final(self).log().drop_last() =~= old(self).log() && is_rec(final(self).log().last(), operation.kind(), old(self).spec_tid()) && final(self).log().last().prev == Some(old(self).spec_last()) && final(self).spec_last() == final(self).log().last().lsn && lsn_lt_all(old(self).log(), final(self).log().last().lsn)),
+//@   [C01:logop.err_keeps_log] r is Err ==> final(self).log() =~= old(self).log(),
+//@   [C01:logop.frame] final(self).durable() == old(self).durable() && final(self).spec_tid() == old(self).spec_tid() && final(self).inv() && final(self).pg().grows_by_at_most_one(old(self).pg()),
+//@end
+
+//@fn crates/axmos-db/src/runtime/context.rs | impl TransactionLogger | log_commit
+//@ mutself
+//@ requires old(self).inv(), old(self).room(1),
+//@ ensures
+//@   [C01:log_commit.kind] r is Ok ==> (final(self).log().len() == old(self).log().len() + 1 && final(self).log().drop_last() =~= old(self).log() && is_rec(final(self).log().last(), RecordType::Commit, old(self).spec_tid())),
+//@   [C01:log_commit.frame] final(self).durable() == old(self).durable() && final(self).spec_tid() == old(self).spec_tid() && final(self).inv() && final(self).pg().grows_by_at_most_one(old(self).pg()) && (r is Err ==> final(self).log() =~= old(self).log()),
+//@end
+
+//@fn crates/axmos-db/src/runtime/context.rs | impl TransactionLogger | log_abort
+//@ mutself
+//@ requires old(self).inv(), old(self).room(1),
+//@ ensures
+//@   [C02:log_abort.kind] r is Ok ==> (final(self).log().len() == old(self).log().len() + 1 && final(self).log().drop_last() =~= old(self).log() && is_rec(final(self).log().last(), RecordType::Abort, old(self).spec_tid())),
+//@   [C02:log_abort.frame] final(self).durable() == old(self).durable() && final(self).spec_tid() == old(self).spec_tid() && final(self).inv() && final(self).pg().grows_by_at_most_one(old(self).pg()) && (r is Err ==> final(self).log() =~= old(self).log()),
+//@end
+
+//@fn crates/axmos-db/src/runtime/context.rs | impl TransactionLogger | log_begin
+//@ mutself
+//@ requires old(self).inv(), old(self).room(1),
+//@ ensures
+//@   [C02:log_begin.kind] r is Ok ==> (final(self).log().len() == old(self).log().len() + 1 && final(self).log().drop_last() =~= old(self).log() && is_rec(final(self).log().last(), RecordType::Begin, old(self).spec_tid())),
+//@end
+
+//@fn crates/axmos-db/src/runtime/context.rs | impl TransactionLogger | log_end
+//@ mutself
+//@ requires old(self).inv(), old(self).room(1),
+//@ ensures
+//@   [C01:log_end.forces_before_end] r is Ok ==> old(self).log().is_prefix_of(final(self).durable()),
+//@   [C01,C02:log_end.appends_end] r is Ok ==> (final(self).log().len() == old(self).log().len() + 1 && final(self).log().drop_last() =~= old(self).log() && is_rec(final(self).log().last(), RecordType::End, old(self).spec_tid())),
+//@   [C01:log_end.frame] final(self).spec_tid() == old(self).spec_tid() && (r is Ok ==> final(self).inv()) && (r is Ok ==> final(self).pg().grows_by_at_most_one(old(self).pg())),
+//@end
+}
+
+#[verifier::external_body]
+pub struct TransactionContext { _p: () }
+impl TransactionContext {
+    pub uninterp spec fn open_spec(&self) -> bool;
+    #[verifier::external_body]
+    pub fn is_open(&self) -> (r: bool) ensures r == self.open_spec() { unimplemented!() }
+    #[verifier::external_body]
+    pub fn commit_transaction(&mut self) -> (r: RuntimeResult<()>)
+        ensures r is Ok ==> !final(self).open_spec(),
+    { unimplemented!() }
+    #[verifier::external_body]
+    pub fn abort_transaction(&mut self) -> (r: RuntimeResult<()>)
+        ensures r is Ok ==> !final(self).open_spec(),
+    { unimplemented!() }
+}
+
+pub struct Session { ctx: TransactionContext, logger: TransactionLogger }
+
+impl Session {
+    pub closed spec fn log(&self) -> Seq<Rec> { self.logger.log() }
+    pub closed spec fn durable(&self) -> Seq<Rec> { self.logger.durable() }
+    pub closed spec fn inv(&self) -> bool { self.logger.inv() }
+    pub open spec fn room(&self, n: int) -> bool { self.logger.room(n) }
+    pub closed spec fn spec_tid(&self) -> u64 { self.logger.spec_tid() }
+    pub closed spec fn is_open(&self) -> bool { self.ctx.open_spec() }
+
+//@fn crates/axmos-db/src/tcp/session.rs | impl Session | commit_transaction
+//@ requires old(self).inv(), old(self).room(2),
+//@ ensures
+//@   [C01:commit.durable_on_return] r is Ok ==> (final(self).durable().len() > old(self).log().len() && old(self).log().is_prefix_of(final(self).durable()) && is_rec(final(self).durable()[old(self).log().len() as int], RecordType::Commit, old(self).spec_tid())),
+//@   [C01:commit.closes] r is Ok ==> (!final(self).is_open() && final(self).inv()),
+//@end
+
+//@fn crates/axmos-db/src/tcp/session.rs | impl Session | abort_transaction
+//@ requires old(self).inv(), old(self).room(2),
+//@ ensures
+//@   [C02:abort.logs_abort_record] r is Ok ==> (final(self).durable().len() > old(self).log().len() && old(self).log().is_prefix_of(final(self).durable()) && is_rec(final(self).durable()[old(self).log().len() as int], RecordType::Abort, old(self).spec_tid())),
+//@   [C02:abort.closes] r is Ok ==> (!final(self).is_open() && final(self).inv()),
+//@end
+
+//@fn crates/axmos-db/src/tcp/session.rs | impl Drop for Session | drop
+//@ rename drop_session
+//@ requires old(self).inv(), old(self).room(2),
+//@ ensures
+//@   [C01:drop.no_abort_after_commit] !old(self).is_open() ==> final(self).log() =~= old(self).log(),
 //@end
 }
 
